@@ -125,7 +125,7 @@ def run(ctx):
     n = 0
     for mr in models(ctx.quick):
         res = npx.run_model(ctx, mr, coverage=not ctx.quick)
-        for doc in res.printed:
+        for doc in ctx.sample([d for d in res.printed if isinstance(d, dict) and "inp" in d], 6000):
             if isinstance(doc, dict) and "inp" in doc:
                 n += 1
                 if ctx.quick and doc["inp"]["engine"] == "hash" and n % 2:
